@@ -11,6 +11,14 @@ View == <<n, t, period, h, createdH, status, poly, acc, groupPub, r1, r2, sh, pu
 MCNext == Next /\ ndev' <= MaxDev
 MCSpec == Init /\ [][MCNext]_vars
 
+\* algebra facet: every polynomial of every dealer, but one schedule - members act in id order and a
+\* block ends exactly when a round is complete (the interleavings are the other facets' subject)
+InOrder(f) == \A i \in 2..n : f[i] => f[i - 1]
+AlgNext == /\ MCNext
+           /\ h' # h => pend
+           /\ InOrder(r1') /\ InOrder(r2') /\ InOrder([i \in Mem |-> conf'[i] \/ comp'[i]])
+           /\ out'.ok
+
 \* "fewer than t cannot": t-1 private keys are consistent with every value of the group secret -
 \* for every t-1 points, every value vector on them and every candidate secret s there is a polynomial
 \* of degree < t through those points with constant term s.  (Constant-level: evaluated once.)
